@@ -1238,6 +1238,8 @@ class State:
 
     # ---- C20 -------------------------------------------------------------------------------------------
     def o_emb(self, he):
+        if he not in self.ex.embs:
+            raise RuntimeError('no embedding ' + he)
         try:
             return self._emb(he)
         except Exception as x:      # every call below is a public call with valid arguments
